@@ -938,6 +938,12 @@ func (cv *Conv) Exec(e *Edge) (divs []evid.Div, fatal error) {
 			divs[i].Prop = "C07"
 		}
 	}
+	if cc := e.Lbl.Cmd.C; (cc == "DATASTALL" || cc == "BDATSTALL") && len(rs) < len(exp) {
+		// the backend's error (here: the reader's, passed on) is owed to the client as a
+		// reply even when the connection is given up afterwards
+		divs = append(divs, evid.Div{Prop: "C17", Key: fmt.Sprintf("error-reply-missing:%s:%s", e.Lbl.Cmd.String(), srcClass(e)),
+			Msg: fmt.Sprintf("%s: the backend returned an error and the client was not told: expected replies %v, got %v", ctx, exp, st.Replies), Replay: rp()})
+	}
 	if cc := e.Lbl.Cmd.C; cc == "DATASTALL" || cc == "BDATSTALL" {
 		// a positive reply, or end-of-file at the backend, for a message that stopped arriving
 		pos := false
